@@ -555,6 +555,9 @@ func c04One(c *fw.Ctx, s *c04Stream, cs c04Case) (class, detail string) {
 	if obs.Err == nil {
 		return fail("C04/no-termination/"+role, "read loop ended without error\nlibrary: %s", got())
 	}
+	if obs.AfterErr != "" {
+		return fail("C04/clean-eof-after-failed-read/"+role, "the read of the message containing the cut failed (%v); reading the same message again %s\nlibrary: %s", obs.Err, obs.AfterErr, got())
+	}
 	extra := len(obs.Complete) - p.nBefore
 	if extra > 0 {
 		if !cutInside {
